@@ -259,6 +259,27 @@ fn collect_items(items: &[Item], file: &str, module: &str, c: &mut Collected) {
                     continue;
                 }
                 let mut methods = vec![];
+                // `trait NonFungibleBurnable: NonFungibleToken<ContractType: BurnableOverrides>`: the supertrait clause
+                // bounds the inherited associated type; `Self::ContractType::m` in this trait's defaults goes through it
+                for sb in &t.supertraits {
+                    if let TypeParamBound::Trait(tb) = sb {
+                        if let Some(ls) = tb.path.segments.last() {
+                            if let PathArguments::AngleBracketed(ab) = &ls.arguments {
+                                for ga in &ab.args {
+                                    if let GenericArgument::Constraint(cn) = ga {
+                                        for b in &cn.bounds {
+                                            if let TypeParamBound::Trait(cb) = b {
+                                                c.assoc_bounds
+                                                    .insert((t.ident.to_string(), cn.ident.to_string()), cb.path.segments.last().unwrap().ident.to_string());
+                                                break;
+                                            }
+                                        }
+                                    }
+                                }
+                            }
+                        }
+                    }
+                }
                 for ti in &t.items {
                     if let TraitItem::Type(at) = ti {
                         for b in &at.bounds {
@@ -1248,6 +1269,14 @@ fn main() {
                 Some(ti) => (ti.assoc.clone(), ti.overridden.clone(), ti.impl_generics.clone(), ti.impl_self_ty.clone()),
                 None => (BTreeMap::new(), BTreeSet::new(), String::new(), ty.clone()),
             };
+            // associated types set in the impl of a supertrait for the same type (`type ContractType = X` lives in
+            // `impl NonFungibleToken for T`, the defaults of `NonFungibleBurnable for T` use it)
+            let mut assoc = assoc;
+            for t in c.trait_impls.iter().filter(|t| t.type_name == ty && t.trait_name != tr) {
+                for (k, v) in &t.assoc {
+                    assoc.entry(k.clone()).or_insert(v.clone());
+                }
+            }
             let defaults: Vec<FnRec> = c.fns.iter().filter(|f| f.in_trait_decl && f.trait_name.as_deref() == Some(tr.as_str())).cloned().collect();
             for f in defaults {
                 let name = f.sig.ident.to_string();
